@@ -10,6 +10,8 @@ PROOF_MODULE = 'OpenHTF.Proofs.C15'
 THEOREMS = [
     'OpenHTF.AdbConn.c15_handshake',
     'OpenHTF.AdbConn.c15_noise_ignored_before_cnxn',
+    'OpenHTF.AdbConn.connectE_never_expiring',
+    'OpenHTF.AdbConn.c15_deadline_never_connects_without_cnxn',
     'OpenHTF.AdbConn.c15_ids_distinct_nonzero_below_limit',
     'OpenHTF.AdbConn.c15_exactly_one_clse_and_id_released',
     'OpenHTF.AdbConn.c15_illegal_midsession_raises',
@@ -21,7 +23,7 @@ THEOREMS = [
 PENDING = ['drain-then-closed and routing of other streams\' packets are carried by the model (readForStream/readStream) and '
            'the tie; their invariants are part of C14']
 RULE = ('H: every device reply sequence of length<=4 (quick) / <=5 (thorough) over {CNXN ok, CNXN bad banner, AUTH token, '
-        'AUTH other, noise} with 0-2 keys; I: id allocation with the limit patched to 8 and to the real value, every '
+        'AUTH other, noise} with 0-2 keys, without a deadline and with the handshake time-out (fake clock in openhtf.util.timeouts) running out while the e-th message is read; I: id allocation with the limit patched to 8 and to the real value, every '
         '_last_id_used and live subsets incl. exhaustion and wrap-around; S: open/close/read(length)/remote-close histories of '
         'length<=4 over 1-2 streams with device scripts of OKAY/WRTE/CLSE/illegal packets (limit patched to 8); observed: '
         'packets received by the fake device, return values/exceptions')
@@ -38,12 +40,17 @@ class _UsbErr(object):
 class Device(object):
   """scripted device: frames to deliver in order; records what the host sends"""
 
-  def __init__(self, frames):
+  def __init__(self, frames, clock=None, jump_after=None):
     self.chunks = []
-    for hdr, data in frames:
+    self.jump_at = None      # number of chunks left when the clock jumps past every deadline
+    for i, (hdr, data) in enumerate(frames):
       self.chunks.append(hdr)
       if data:
         self.chunks.append(data)
+      if jump_after is not None and i + 1 == jump_after:
+        self.jump_at = len(self.chunks)
+    self.total = len(self.chunks)
+    self.clock = clock
     self.sent = []
     self._pending_hdr = None
 
@@ -51,7 +58,11 @@ class Device(object):
     from openhtf.plugs.usb import usb_exceptions as ue
     if not self.chunks:
       raise ue.UsbReadFailedError(_UsbErr(), 'no more data')
-    return self.chunks.pop(0)
+    c = self.chunks.pop(0)
+    if self.jump_at is not None and self.total - len(self.chunks) == self.jump_at:
+      # the last chunk of that message arrives as the handshake time-out runs out
+      self.clock.now += 10 ** 7
+    return c
 
   def write(self, data, timeout_ms=None):
     if isinstance(data, bytes):
@@ -68,6 +79,22 @@ class Device(object):
 def _frame(cmd, a0=0, a1=0, data=''):
   w = sum(ord(c) << (8 * i) for i, c in enumerate(cmd))
   return (struct.pack('<6I', w, a0, a1, len(data), sum(ord(c) for c in data) & 0xFFFFFFFF, w ^ 0xFFFFFFFF), data)
+
+
+class FakeClock(object):
+  """stands in for the `time` module inside openhtf.util.timeouts"""
+
+  def __init__(self):
+    self.now = 1000.0
+
+  def time(self):
+    return self.now
+
+  def monotonic(self):
+    return self.now
+
+  def sleep(self, s):
+    self.now += s
 
 
 class Key(object):
@@ -120,8 +147,12 @@ def run_real(case):
         frames.append(_frame('AUTH', 2, 0, 'x'))
       else:
         frames.append(_frame(['OKAY', 'WRTE', 'CLSE', 'SYNC', 'OPEN'][r[1] % 5], 3, 4, 'n' if r[1] % 2 else ''))
-    dev = Device(frames)
+    from openhtf.util import timeouts
+    clock = FakeClock()
+    dev = Device(frames, clock, case.get('exp'))
     keys = [Key(i) for i in range(case['nkeys'])]
+    real_time = timeouts.time
+    timeouts.time = clock
     try:
       conn = ap.AdbConnection.connect(dev, rsa_keys=keys, timeout_ms=600000, auth_timeout_ms=600000)
       res = 'R:conn:%d' % conn.maxdata
@@ -129,6 +160,8 @@ def run_real(case):
         res = 'R:conn-bad-fields'
     except Exception as e:  # pylint: disable=broad-except
       res = 'R:' + _errkind(e, ue)
+    finally:
+      timeouts.time = real_time
     sent = []
     for name, a0, a1, data in dev.sent:
       if name == 'CNXN':
@@ -212,7 +245,8 @@ def encode(case, obs):
     def rt(r):
       return {'C': lambda: 'C:%d:%d' % (r[1], 1 if r[2] else 0), 'T': lambda: 'T:%d' % r[1], 'A': lambda: 'A',
               'N': lambda: 'N'}[r[0]]()
-    return 'C15 H %d %d %s # %s' % (case['nkeys'], len(case['replies']), ' '.join(rt(r) for r in case['replies']), ' '.join(obs))
+    return 'C15 H %d %s %d %s # %s' % (case['nkeys'], case.get('exp') or '-', len(case['replies']),
+                                       ' '.join(rt(r) for r in case['replies']), ' '.join(obs))
   if k == 'I':
     return 'C15 I %d %d %d %s # %s' % (case['limit'], case['last'], len(case['live']), ' '.join(map(str, case['live'])), ' '.join(obs))
   ops = ' '.join('O' if o[0] == 'O' else ('R:%d:%d' % (o[1], o[2] if len(o) > 2 else 0) if o[0] == 'R' else '%s:%d' % (o[0], o[1]))
@@ -225,7 +259,7 @@ def encode(case, obs):
 
 def classify(case, obs):
   if case['kind'] == 'H':
-    return 'H/' + obs[-1].split(':')[1]
+    return 'H/' + obs[-1].split(':')[1] + ('/deadline' if case.get('exp') else '')
   return case['kind']
 
 
@@ -252,6 +286,11 @@ def gen_cases(rng, tier):
         if tier == 'thorough' and n == 5 and rng.random() < 0.9:
           continue
         cases.append({'kind': 'H', 'nkeys': nkeys, 'replies': rs})
+        # the handshake time-out runs out while the e-th message is being read
+        for e in range(1, n + 1):
+          if n >= 3 and rng.random() < 0.5:
+            continue
+          cases.append({'kind': 'H', 'nkeys': nkeys, 'replies': rs, 'exp': e})
   # id allocation
   for limit in (8, 3, 2):
     for last in range(0, limit + 2):
